@@ -2,7 +2,11 @@
    a recorded node, every resolver node has its targets retained, memoised resolver targets are
    final, every recorded node is reachable from the nodes handed back so far, and no loop bound
    is exhausted. *)
-From Verif Require Import Base.Prelude Chain.Model Chain.Lemmas Chain.Passes Chain.Resolve.
+From Verif Require Import Base.Prelude.
+From Verif Require Import Chain.Model.
+From Verif Require Import Chain.Lemmas.
+From Verif Require Import Chain.Passes.
+From Verif Require Import Chain.Resolve.
 Local Open Scope string_scope.
 Local Open Scope list_scope.
 
@@ -173,13 +177,13 @@ Section Asm.
   Definition RootReach (R : list nid) (st : cstate) : Prop :=
     forall k, key_in st k -> exists r, In r R /\ reachN (tn st) r k.
 
-  Definition I (ip : list string) (R : list nid) (st : cstate) : Prop :=
+  Definition AInv (ip : list string) (R : list nid) (st : cstate) : Prop :=
     Closed_st st /\ Counted ip st /\ RootReach R st.
 
   Lemma RootReach_mono R R' st : incl R R' -> RootReach R st -> RootReach R' st.
   Proof. intros Hi H k Hk. destruct (H k Hk) as (r & Hr & Hp). exists r; auto. Qed.
 
-  Lemma I_mono ip R R' st : incl R R' -> I ip R st -> I ip R' st.
+  Lemma I_mono ip R R' st : incl R R' -> AInv ip R st -> AInv ip R' st.
   Proof. intros Hi (A & B & C). split; [exact A|]. split; [exact B|]. eapply RootReach_mono; eauto. Qed.
 
   (* states that differ only in protocol / retained targets / the advanced-routing flag *)
@@ -222,7 +226,7 @@ Section Asm.
     - intros t Ht. apply C3. unfold mem_resolver in *. rewrite <- H2. exact Ht.
   Qed.
 
-  Lemma same_graph_I ip R st st' : same_graph st st' -> I ip R st -> I ip R st'.
+  Lemma same_graph_I ip R st st' : same_graph st st' -> AInv ip R st -> AInv ip R st'.
   Proof.
     intros Hs (Hcl & Hc & Hr). pose proof Hs as (H1 & H2 & H3). split; [|split].
     - eapply same_graph_Closed; eauto.
@@ -291,9 +295,9 @@ Section Asm.
   Qed.
 
   Lemma I_record_resolver ip R st t n :
-    I ip R st -> step cx (resolver_of es (t_svc t)) t = SFinal ->
+    AInv ip R st -> step cx (resolver_of es (t_svc t)) t = SFinal ->
     In t (s_retained st) -> incl (rn_failover n) (s_retained st) ->
-    I ip (NResolver t :: R) (record_resolver st t n).
+    AInv ip (NResolver t :: R) (record_resolver st t n).
   Proof.
     intros ((C1 & C2 & C3) & Hc & Hr) Hf Ht Hn. split; [split; [|split]|split].
     - intros s edges Ha e He. apply key_in_record_resolver. left. eapply C1; eauto.
@@ -311,14 +315,14 @@ Section Asm.
   Qed.
 
   Lemma get_resolver_node_spec ip R st t st' t' :
-    get_resolver_node es cx st t = Ok (st', t') -> I ip R st ->
-    le_state st st' /\ I ip (NResolver t' :: R) st' /\ mem_resolver st' t' = true /\
+    get_resolver_node es cx st t = Ok (st', t') -> AInv ip R st ->
+    le_state st st' /\ AInv ip (NResolver t' :: R) st' /\ mem_resolver st' t' = true /\
     Orbit es cx t t' /\ s_splitters st' = s_splitters st.
   Proof.
     unfold get_resolver_node.
     destruct (resolve_loop es cx (redirect_fuel es) st [] t) as [[st1 res]|e] eqn:E; [|discriminate].
     apply resolve_loop_spec in E as [Ht Hres]. intros H HI.
-    assert (HI1 : I ip R st1) by (eapply same_graph_I; [apply same_tables_graph; eauto | exact HI]).
+    assert (HI1 : AInv ip R st1) by (eapply same_graph_I; [apply same_tables_graph; eauto | exact HI]).
     destruct res as [x|x r].
     - injection H as <- <-. destruct Hres as [Hm Ho]. split; [apply same_tables_le; auto|].
       split; [eapply I_mono; [|exact HI1]; intros ? ?; right; auto|].
@@ -327,9 +331,9 @@ Section Asm.
     - destruct Hres as (Hm & Hr & Ho). destruct (external_check es r x); [discriminate|].
       set (st2 := retain st1 x) in *.
       set (st3 := record_resolver st2 x (RNode (is_default_resolver r) [])) in *.
-      assert (HI2 : I ip R st2) by (eapply same_graph_I; [apply same_graph_retain | exact HI1]).
+      assert (HI2 : AInv ip R st2) by (eapply same_graph_I; [apply same_graph_retain | exact HI1]).
       assert (Hfin : step cx (resolver_of es (t_svc x)) x = SFinal) by (eapply Orbit_final; eauto).
-      assert (HI3 : I ip (NResolver x :: R) st3).
+      assert (HI3 : AInv ip (NResolver x :: R) st3).
       { apply I_record_resolver; auto; [apply retain_In | intros ? []]. }
       assert (Hm2 : mem_resolver st2 x = false).
       { unfold st2, mem_resolver, retain; cbn [s_resolvers]. destruct Ht as (_ & -> & _). exact Hm. }
@@ -338,7 +342,7 @@ Section Asm.
         eapply le_state_trans; [apply le_state_retain|]. apply le_state_record_resolver. exact Hm2. }
       destruct (resolve_failovers es cx st3 (failover_targets cx r x)) as [[st4 fts]|e] eqn:Ef; [|discriminate].
       apply resolve_failovers_spec in Ef as [G4 P4].
-      assert (HI4 : I ip (NResolver x :: R) st4) by (eapply same_graph_I; eauto).
+      assert (HI4 : AInv ip (NResolver x :: R) st4) by (eapply same_graph_I; eauto).
       assert (L4 : le_state st st4) by (eapply le_state_trans; [exact L3 | apply same_graph_le; exact G4]).
       assert (Hm4 : mem_resolver st4 x = true).
       { destruct G4 as (_ & G4 & _). unfold mem_resolver. rewrite G4. unfold st3, record_resolver; cbn [s_resolvers].
@@ -363,20 +367,20 @@ Section Asm.
   (* ---- getSplitterNode ---- *)
 
   Definition rec_ok (ip : list string) (rec : cstate -> string -> cres (cstate * option nid)) : Prop :=
-    forall R st s st' r, I ip R st -> rec st s = Ok (st', r) ->
-      le_state st st' /\ I ip (match r with Some id => id :: R | None => R end) st' /\
+    forall R st s st' r, AInv ip R st -> rec st s = Ok (st', r) ->
+      le_state st st' /\ AInv ip (match r with Some id => id :: R | None => R end) st' /\
       match r with Some id => key_in st' id | None => True end.
 
   Lemma do_legs_spec ip rec self : rec_ok ip rec -> forall l R st st' edges,
-    I ip R st -> do_legs es cx rec self st l = Ok (st', edges) ->
-    le_state st st' /\ I ip (map snd edges ++ R) st' /\
+    AInv ip R st -> do_legs es cx rec self st l = Ok (st', edges) ->
+    le_state st st' /\ AInv ip (map snd edges ++ R) st' /\
     (forall e, In e edges -> key_in st' (snd e)) /\ List.length edges = List.length l.
   Proof.
     intros Hrec. induction l as [|sp l IH]; intros R st st' edges HI; cbn [do_legs].
     - intros H; injection H as <- <-. split; [apply le_state_refl|]. split; [exact HI|]. split; [intros ? []|reflexivity].
     - set (s := default_if_empty (sp_svc sp) self).
       destruct (if negb (s =? self) && (sp_sub sp =? "") then rec st s else Ok (st, None)) as [[st1 r]|e] eqn:E1; [|discriminate].
-      assert (H1 : le_state st st1 /\ I ip (match r with Some id => id :: R | None => R end) st1 /\
+      assert (H1 : le_state st st1 /\ AInv ip (match r with Some id => id :: R | None => R end) st1 /\
                    match r with Some id => key_in st1 id | None => True end).
       { destruct (negb (s =? self) && (sp_sub sp =? "")); [eapply Hrec; eauto|].
         injection E1 as <- <-. split; [apply le_state_refl | auto]. }
@@ -424,7 +428,7 @@ Section Asm.
       intros H; injection H as <- <-.
       destruct HI as ((C1 & C2 & C3) & Hc & Hr).
       assert (L1 : le_state st st1) by (apply le_state_record_splitter; exact Em).
-      assert (HI1 : I (s :: ip) (NSplitter s :: R) st1).
+      assert (HI1 : AInv (s :: ip) (NSplitter s :: R) st1).
       { split; [split; [|split]|split].
         - intros x edges0 Ha e He. unfold st1, record_splitter in Ha; cbn [s_splitters] in Ha.
           rewrite (assoc_upsert String.eqb String.eqb_eq) in Ha. destruct (x =? s).
@@ -445,7 +449,7 @@ Section Asm.
       { destruct L2 as (A & _). apply A. unfold st1, record_splitter; cbn [s_splitters].
         apply (assoc_upsert_same String.eqb String.eqb_eq). }
       set (st3 := record_splitter st2 s edges).
-      assert (HI3 : I ip (NSplitter s :: R) st3).
+      assert (HI3 : AInv ip (NSplitter s :: R) st3).
       { split; [split; [|split]|split].
         - intros x edges0 Ha e He. apply key_in_record_splitter. left.
           unfold st3, record_splitter in Ha; cbn [s_splitters] in Ha.
@@ -486,8 +490,8 @@ Section Asm.
   Qed.
 
   Lemma get_split_or_resolve_spec ip R st t st' id :
-    I ip R st -> get_split_or_resolve es cx st t = Ok (st', id) ->
-    le_state st st' /\ I ip (id :: R) st' /\ key_in st' id.
+    AInv ip R st -> get_split_or_resolve es cx st t = Ok (st', id) ->
+    le_state st st' /\ AInv ip (id :: R) st' /\ key_in st' id.
   Proof.
     intros HI. unfold get_split_or_resolve.
     destruct (get_splitter_node es cx (splitter_fuel es) st (t_svc t)) as [[st1 r]|e] eqn:E1; [|discriminate].
@@ -500,8 +504,8 @@ Section Asm.
   Qed.
 
   Lemma do_routes_spec ip : forall l R st st' ids,
-    I ip R st -> do_routes es cx svc st l = Ok (st', ids) ->
-    le_state st st' /\ I ip (ids ++ R) st' /\ (forall id, In id ids -> key_in st' id).
+    AInv ip R st -> do_routes es cx svc st l = Ok (st', ids) ->
+    le_state st st' /\ AInv ip (ids ++ R) st' /\ (forall id, In id ids -> key_in st' id).
   Proof.
     induction l as [|r l IH]; intros R st st' ids HI; cbn [do_routes].
     - intros H; injection H as <- <-. split; [apply le_state_refl|]. split; [exact HI | intros ? []].
@@ -509,7 +513,7 @@ Section Asm.
       destruct (if rt_sub r =? "" then get_split_or_resolve es cx st (new_target cx s "")
                 else match get_resolver_node es cx st (new_target cx s (rt_sub r)) with
                      | Err e => Err e | Ok (st1, t') => Ok (st1, NResolver t') end) as [[st1 id]|e] eqn:E1; [|discriminate].
-      assert (H1 : le_state st st1 /\ I ip (id :: R) st1 /\ key_in st1 id).
+      assert (H1 : le_state st st1 /\ AInv ip (id :: R) st1 /\ key_in st1 id).
       { destruct (rt_sub r =? ""); [eapply get_split_or_resolve_spec; eauto|].
         destruct (get_resolver_node es cx st (new_target cx s (rt_sub r))) as [[st1' t']|e] eqn:E2; [|discriminate].
         injection E1 as <- <-. destruct (get_resolver_node_spec ip _ _ _ _ _ E2 HI) as (L2 & HI2 & M2 & _). auto. }
@@ -524,7 +528,7 @@ Section Asm.
       + intros x [<-|Hx]; [eapply le_state_key_in; eauto | auto].
   Qed.
 
-  Lemma I_st0 : I [] [] st0.
+  Lemma I_st0 : AInv [] [] st0.
   Proof.
     split; [split; [|split]|split].
     - intros s edges Ha. discriminate.
@@ -551,7 +555,7 @@ Section Asm.
       rewrite lookup_to_nodes in Hl |- *. destruct x; [discriminate | exact Hl | exact Hl]. }
     destruct (if disable_adv cx then None else get_router es svc) as [routes|].
     - destruct (record_protocol es (set_adv st0) svc) as [st1|e] eqn:Ep; [|discriminate].
-      assert (HI1 : I [] [] st1).
+      assert (HI1 : AInv [] [] st1).
       { eapply same_graph_I; [apply same_tables_graph; eapply record_protocol_tables; eauto|].
         eapply same_graph_I; [apply same_graph_set_adv | apply I_st0]. }
       destruct (do_routes es cx svc st1 routes) as [[st2 ids]|e] eqn:Er; [|discriminate].
@@ -605,3 +609,213 @@ Section Asm.
       + exact Hc.
       + exact K1.
   Qed.
+
+  (* ---- no loop bound is exhausted ---- *)
+
+  Lemma resolve_ff_no_fuel st t : resolve_ff es cx st t <> Err EOutOfFuel.
+  Proof.
+    unfold resolve_ff. pose proof (resolve_loop_terminates es cx st t) as H.
+    destruct (resolve_loop es cx (redirect_fuel es) st [] t) as [[st1 [x|x r]]|e]; try discriminate.
+    - destruct (external_check es r x) as [e|] eqn:E; [|discriminate].
+      unfold external_check in E. destruct (get_defaults es (t_svc x)) as [[? [|]]|]; try discriminate.
+      destruct (rs_redirect r); [injection E as <-; discriminate|].
+      destruct (rs_subsets r); [|injection E as <-; discriminate].
+      destruct (rs_failover r); [discriminate | injection E as <-; discriminate].
+    - congruence.
+  Qed.
+
+  Lemma external_check_no_fuel r x e : external_check es r x = Some e -> e <> EOutOfFuel.
+  Proof.
+    unfold external_check. destruct (get_defaults es (t_svc x)) as [[? [|]]|]; try discriminate.
+    destruct (rs_redirect r); [intros E; injection E as <-; discriminate|].
+    destruct (rs_subsets r); [|intros E; injection E as <-; discriminate].
+    destruct (rs_failover r); [discriminate | intros E; injection E as <-; discriminate].
+  Qed.
+
+  Lemma resolve_failovers_no_fuel : forall l st, resolve_failovers es cx st l <> Err EOutOfFuel.
+  Proof.
+    induction l as [|ft l IH]; intros st; cbn [resolve_failovers]; [discriminate|].
+    pose proof (resolve_ff_no_fuel st ft) as H.
+    destruct (resolve_ff es cx st ft) as [[st1 t1]|e]; [|congruence].
+    specialize (IH st1). destruct (resolve_failovers es cx st1 l) as [[st2 ts]|e]; [discriminate | congruence].
+  Qed.
+
+  Lemma get_resolver_node_no_fuel st t : get_resolver_node es cx st t <> Err EOutOfFuel.
+  Proof.
+    unfold get_resolver_node. pose proof (resolve_loop_terminates es cx st t) as H.
+    destruct (resolve_loop es cx (redirect_fuel es) st [] t) as [[st1 [x|x r]]|e]; try discriminate; [|congruence].
+    destruct (external_check es r x) as [e|] eqn:E; [apply external_check_no_fuel in E; congruence|].
+    match goal with |- context [resolve_failovers es cx ?s ?l] =>
+      pose proof (resolve_failovers_no_fuel l s) as Hf; destruct (resolve_failovers es cx s l) as [[st4 [|? ?]]|e] end;
+      try discriminate. congruence.
+  Qed.
+
+  Definition snames : list string :=
+    dedup String.eqb (flat_map (fun e => match e with ESplitter n _ => [n] | _ => [] end) es).
+
+  Definition unrec (st : cstate) : list string := filter (fun n => negb (mem_splitter st n)) snames.
+
+  Lemma snames_length : List.length snames <= List.length es.
+  Proof.
+    unfold snames. eapply Nat.le_trans; [apply dedup_length; apply String.eqb_eq|].
+    eapply Nat.le_trans; [apply (flat_map_length_le _ 1)|lia]. intros [ | | | | ]; cbn; lia.
+  Qed.
+
+  Lemma get_splitter_In s l : get_splitter es s = Some l -> In s snames.
+  Proof.
+    unfold get_splitter. destruct (lookup_entry es (KSplitter, s)) as [e|] eqn:E; [|discriminate].
+    apply lookup_entry_In in E as [Hi Hk]. destruct e; try discriminate. intros _.
+    cbn [ekey] in Hk. injection Hk as ->. unfold snames. apply (dedup_In String.eqb String.eqb_eq).
+    apply in_flat_map. eexists; split; [exact Hi|]. left; reflexivity.
+  Qed.
+
+  Lemma filter_length_le {A} (f g : A -> bool) l :
+    (forall x, f x = true -> g x = true) -> List.length (filter f l) <= List.length (filter g l).
+  Proof.
+    intros H. induction l as [|x l IH]; cbn [filter]; [lia|].
+    destruct (f x) eqn:E; [rewrite (H x E); cbn [List.length]; lia|].
+    destruct (g x); cbn [List.length]; lia.
+  Qed.
+
+  Lemma filter_length_lt {A} (f g : A -> bool) l x :
+    In x l -> g x = true -> f x = false -> (forall y, f y = true -> g y = true) ->
+    List.length (filter f l) < List.length (filter g l).
+  Proof.
+    intros Hi Hg Hf H. induction l as [|y l IH]; [destruct Hi|]. cbn [filter]. destruct Hi as [->|Hi].
+    - rewrite Hg, Hf. cbn [List.length]. pose proof (filter_length_le f g l H). lia.
+    - specialize (IH Hi). destruct (f y) eqn:E; [rewrite (H y E); cbn [List.length]; lia|].
+      destruct (g y); cbn [List.length]; lia.
+  Qed.
+
+  Lemma unrec_le st st' : le_state st st' -> List.length (unrec st') <= List.length (unrec st).
+  Proof.
+    intros (H1 & _). apply filter_length_le. intros x Hx. apply negb_true_iff in Hx. apply negb_true_iff.
+    unfold mem_splitter in *. destruct (assoc String.eqb x (s_splitters st)) eqn:E; [|reflexivity].
+    rewrite (H1 _ _ E) in Hx. discriminate.
+  Qed.
+
+  Lemma unrec_record st s l e :
+    get_splitter es s = Some l -> mem_splitter st s = false ->
+    List.length (unrec (record_splitter st s e)) < List.length (unrec st).
+  Proof.
+    intros Hg Hm. apply (filter_length_lt _ _ _ s).
+    - eapply get_splitter_In; eauto.
+    - rewrite Hm. reflexivity.
+    - apply negb_false_iff. unfold mem_splitter, record_splitter; cbn [s_splitters].
+      rewrite (assoc_upsert_same String.eqb String.eqb_eq). reflexivity.
+    - intros y Hy. apply negb_true_iff in Hy. apply negb_true_iff.
+      pose proof (le_state_record_splitter st s e Hm) as (H1 & _).
+      unfold mem_splitter in *. destruct (assoc String.eqb y (s_splitters st)) eqn:E; [|reflexivity].
+      rewrite (H1 _ _ E) in Hy. discriminate.
+  Qed.
+
+  Lemma do_legs_no_fuel ip rec self f :
+    rec_ok ip rec ->
+    (forall R st s, AInv ip R st -> List.length (unrec st) <= f -> rec st s <> Err EOutOfFuel) ->
+    forall l R st, AInv ip R st -> List.length (unrec st) <= f -> do_legs es cx rec self st l <> Err EOutOfFuel.
+  Proof.
+    intros Hok Hnf. induction l as [|sp l IH]; intros R st HI Hlen; cbn [do_legs]; [discriminate|].
+    set (s := default_if_empty (sp_svc sp) self).
+    destruct (if negb (s =? self) && (sp_sub sp =? "") then rec st s else Ok (st, None)) as [[st1 r]|e] eqn:E1.
+    - assert (H1 : le_state st st1 /\ AInv ip (match r with Some id => id :: R | None => R end) st1).
+      { destruct (negb (s =? self) && (sp_sub sp =? "")); [destruct (Hok _ _ _ _ _ HI E1) as (A & B & _); auto|].
+        injection E1 as <- <-. split; [apply le_state_refl | auto]. }
+      destruct H1 as [L1 HI1]. pose proof (unrec_le _ _ L1) as U1. destruct r as [id|].
+      + specialize (IH _ _ HI1 ltac:(lia)). destruct (do_legs es cx rec self st1 l) as [[? ?]|e]; [discriminate | congruence].
+      + pose proof (get_resolver_node_no_fuel st1 (new_target cx s (sp_sub sp))) as Hr.
+        destruct (get_resolver_node es cx st1 (new_target cx s (sp_sub sp))) as [[st2 t']|e] eqn:E2; [|congruence].
+        destruct (get_resolver_node_spec ip _ _ _ _ _ E2 HI1) as (L2 & HI2 & _).
+        pose proof (unrec_le _ _ L2) as U2.
+        specialize (IH _ _ HI2 ltac:(lia)). destruct (do_legs es cx rec self st2 l) as [[? ?]|e]; [discriminate | congruence].
+    - destruct (negb (s =? self) && (sp_sub sp =? "")); [|discriminate].
+      intros H; injection H as ->. eapply Hnf; eauto.
+  Qed.
+
+  Lemma get_splitter_node_no_fuel : forall fuel ip R st s,
+    AInv ip R st -> List.length (unrec st) <= fuel -> get_splitter_node es cx fuel st s <> Err EOutOfFuel.
+  Proof.
+    induction fuel as [|f IH]; intros ip R st s HI Hlen; cbn [get_splitter_node].
+    - destruct (mem_splitter st s) eqn:Em; [discriminate|].
+      destruct (if disable_adv cx then None else get_splitter es s) as [splits|] eqn:Eg; [|discriminate].
+      assert (Eg' : get_splitter es s = Some splits) by (destruct (disable_adv cx); [discriminate | exact Eg]).
+      pose proof (unrec_record st s splits [] Eg' Em). lia.
+    - destruct (mem_splitter st s) eqn:Em; [discriminate|].
+      destruct (if disable_adv cx then None else get_splitter es s) as [splits|] eqn:Eg; [|discriminate].
+      assert (Eg' : get_splitter es s = Some splits) by (destruct (disable_adv cx); [discriminate | exact Eg]).
+      pose proof (unrec_record st s splits [] Eg' Em) as Hlt.
+      (* the state after recording the empty node, with its invariant *)
+      assert (HI1 : AInv (s :: ip) (NSplitter s :: R) (record_splitter st s [])).
+      { destruct HI as ((C1 & C2 & C3) & Hc & Hr).
+        assert (L1 : le_state st (record_splitter st s [])) by (apply le_state_record_splitter; exact Em).
+        split; [split; [|split]|split].
+        - intros x edges0 Ha e He. unfold record_splitter in Ha; cbn [s_splitters] in Ha.
+          rewrite (assoc_upsert String.eqb String.eqb_eq) in Ha. destruct (x =? s).
+          + injection Ha as <-. destruct He.
+          + apply key_in_record_splitter. left. eapply C1; eauto.
+        - exact C2.
+        - exact C3.
+        - intros x edges0 Ha. unfold record_splitter in Ha; cbn [s_splitters] in Ha.
+          rewrite (assoc_upsert String.eqb String.eqb_eq) in Ha. destruct (x =? s) eqn:E.
+          + apply String.eqb_eq in E; subst. left; left; auto.
+          + destruct (Hc _ _ Ha) as [H|H]; [left; right; auto | right; auto].
+        - intros k Hk. apply key_in_record_splitter in Hk as [Hk| ->].
+          + destruct (Hr k Hk) as (r & Hi & Hp). exists r. split; [right; auto|].
+            eapply reachN_mono; [|exact Hp]. intros x y. apply le_state_edge. exact L1.
+          + exists (NSplitter s). split; [left; auto | constructor]. }
+      pose proof (do_legs_no_fuel (s :: ip) (get_splitter_node es cx f) s f (get_splitter_node_spec f (s :: ip))
+                   (fun R0 st0 s0 H0 H1 => IH (s :: ip) R0 st0 s0 H0 H1) splits _ _ HI1 ltac:(lia)) as Hd.
+      destruct (do_legs es cx (get_splitter_node es cx f) s (record_splitter st s []) splits) as [[? ?]|e]; [discriminate | congruence].
+  Qed.
+
+  Lemma unrec_bound st : List.length (unrec st) <= splitter_fuel es.
+  Proof.
+    unfold unrec, splitter_fuel. pose proof snames_length as H.
+    assert (forall (f : string -> bool) l, List.length (filter f l) <= List.length l) as Hf.
+    { intros f l. induction l as [|x l IH]; cbn [filter List.length]; [lia|]. destruct (f x); cbn [List.length]; lia. }
+    specialize (Hf (fun n => negb (mem_splitter st n)) snames). lia.
+  Qed.
+
+  Lemma get_split_or_resolve_no_fuel ip R st t : AInv ip R st -> get_split_or_resolve es cx st t <> Err EOutOfFuel.
+  Proof.
+    intros HI. unfold get_split_or_resolve.
+    pose proof (get_splitter_node_no_fuel (splitter_fuel es) ip R st (t_svc t) HI (unrec_bound st)) as H1.
+    destruct (get_splitter_node es cx (splitter_fuel es) st (t_svc t)) as [[st1 [id|]]|e] eqn:E1; [discriminate| |congruence].
+    pose proof (get_resolver_node_no_fuel st1 t) as H2.
+    destruct (get_resolver_node es cx st1 t) as [[? ?]|e]; [discriminate | congruence].
+  Qed.
+
+  Lemma do_routes_no_fuel ip : forall l R st, AInv ip R st -> do_routes es cx svc st l <> Err EOutOfFuel.
+  Proof.
+    induction l as [|r l IH]; intros R st HI; cbn [do_routes]; [discriminate|].
+    set (s := default_if_empty (rt_svc r) svc).
+    destruct (if rt_sub r =? "" then get_split_or_resolve es cx st (new_target cx s "")
+              else match get_resolver_node es cx st (new_target cx s (rt_sub r)) with
+                   | Err e => Err e | Ok (st1, t') => Ok (st1, NResolver t') end) as [[st1 id]|e] eqn:E1.
+    - assert (HI1 : AInv ip (id :: R) st1).
+      { destruct (rt_sub r =? ""); [eapply get_split_or_resolve_spec; eauto|].
+        destruct (get_resolver_node es cx st (new_target cx s (rt_sub r))) as [[st1' t']|e] eqn:E2; [|discriminate].
+        injection E1 as <- <-. destruct (get_resolver_node_spec ip _ _ _ _ _ E2 HI) as (L2 & HI2 & M2 & _). auto. }
+      specialize (IH _ _ HI1). destruct (do_routes es cx svc st1 l) as [[? ?]|e']; [discriminate | congruence].
+    - destruct (rt_sub r =? "").
+      + pose proof (get_split_or_resolve_no_fuel ip R st (new_target cx s "") HI). congruence.
+      + pose proof (get_resolver_node_no_fuel st (new_target cx s (rt_sub r))) as H2.
+        destruct (get_resolver_node es cx st (new_target cx s (rt_sub r))) as [[? ?]|e']; [discriminate | congruence].
+  Qed.
+
+  Theorem assemble_no_fuel : assemble es cx svc <> Err EOutOfFuel.
+  Proof.
+    unfold assemble. destruct (if disable_adv cx then None else get_router es svc) as [routes|].
+    - destruct (record_protocol es (set_adv st0) svc) as [st1|e] eqn:Ep;
+        [|apply record_protocol_err in Ep; subst; discriminate].
+      assert (HI1 : AInv [] [] st1).
+      { eapply same_graph_I; [apply same_tables_graph; eapply record_protocol_tables; eauto|].
+        eapply same_graph_I; [apply same_graph_set_adv | apply I_st0]. }
+      pose proof (do_routes_no_fuel [] routes _ _ HI1) as H1.
+      destruct (do_routes es cx svc st1 routes) as [[st2 ids]|e] eqn:Er; [|congruence].
+      destruct (do_routes_spec [] _ _ _ _ _ HI1 Er) as (L2 & HI2 & K2).
+      pose proof (get_split_or_resolve_no_fuel [] _ st2 (new_target cx svc "") HI2) as H2.
+      destruct (get_split_or_resolve es cx st2 (new_target cx svc "")) as [[? ?]|e]; [discriminate | congruence].
+    - pose proof (get_split_or_resolve_no_fuel [] [] st0 (new_target cx svc "") I_st0) as H2.
+      destruct (get_split_or_resolve es cx st0 (new_target cx svc "")) as [[? ?]|e]; [discriminate | congruence].
+  Qed.
+End Asm.
